@@ -11,6 +11,22 @@
 //	applyIf: expected version != version(state) -> precondition_failed (reports version(state)),
 //	         else as apply                                    (compare-and-swap)
 //	snapshot: returns (state.content, version(state)); routes: returns state.routes
+//	api-get : GetConfig of the config API = snapshot (payload decoded by the harness)
+//	api-apply(if_match=v, document | merge patch): the CAS of the model. It takes effect only if
+//	         v is the version of the state at its linearisation point; a merge patch is evaluated
+//	         against the configuration current AT THAT POINT (the empty patch yields the current
+//	         configuration, a patch that sets the route list yields current-with-these-routes).
+//	         Without if_match, with a stale one, or with an undecodable / invalid / not-route-only
+//	         result it is rejected and leaves the state alone.
+//	api-validate: no effect; valid documents pass, invalid ones are rejected.
+//
+// The API operations (api_test.go) go through the in-process connect service
+// (internal/api.Service -> gate.ConfigHandlerImpl) and are recorded in the SAME histories as the
+// direct appliers (Gate.ApplyLiveConfig is what a file reload calls): the handler's own mutex
+// serialises API requests only, so whether its version check and its commit are one atomic step
+// shows only against direct appliers. API candidates of "bulk" histories carry route tables of
+// some hundred routes, which stretches the handler's decode/merge/validate phase between taking
+// its snapshot and committing.
 //
 // "Content" is the JSON document of the configuration as marshalled by the harness; versions are
 // opaque strings related to contents only through what the API returned, and must form a
@@ -85,6 +101,7 @@ func initialConfig() *gcfg.Config {
 	c.Config.Bind = "127.0.0.1:25565"
 	c.Config.Lite.Enabled = true
 	c.Config.Lite.Routes = []liteconfig.Route{route(1000)}
+	c.Config.Status.Motd = yamlNormalMotd() // see api_test.go: documents sent through the config API are YAML
 	c.Config.Status.Favicon = "data:image/png;base64,iVBORw0KGgo=" // the default is 5 KB of base64 that every marshal under -race would pay for (an empty favicon does not survive ConfigSnapshot: see C37)
 	// own the reference-typed members so that histories do not share mutable state
 	c.Config.Servers = map[string]string{}
@@ -109,7 +126,7 @@ type cand struct {
 	desc  string
 }
 
-func mkCand(rng *rand.Rand, class string, uid int) cand {
+func mkCand(rng *rand.Rand, class string, uid int, bulk ...int) cand {
 	if class == clsNil {
 		return cand{class: clsNil, key: "nil", desc: "nil"}
 	}
@@ -119,6 +136,14 @@ func mkCand(rng *rand.Rand, class string, uid int) cand {
 		routes = append(routes, route(uid+500))
 	}
 	desc := fmt.Sprintf("%s#%d", class, uid)
+	if len(bulk) > 0 && bulk[0] > 0 {
+		// a large route table (valid routes, unique per uid): decoding and validating it takes the
+		// API handler the longer the larger it is
+		for i := 0; i < bulk[0]; i++ {
+			routes = append(routes, route(20000+uid*1000+i))
+		}
+		desc += fmt.Sprintf("+%droutes", bulk[0])
+	}
 	switch class {
 	case clsRoute:
 	case clsInvalid:
@@ -161,7 +186,9 @@ func mkCand(rng *rand.Rand, class string, uid int) cand {
 // ---- history ----------------------------------------------------------------------------------
 
 type opIn struct {
-	Kind     string // snapshot routes apply applyif
+	Kind     string // snapshot routes apply applyif api-get api-apply api-validate
+	Form     string // api-apply / api-validate: yaml json patch patch-noop garbage
+	Noop     bool   // api-apply: the candidate is whatever is current at the linearisation point
 	Cand     string // content key of the candidate
 	CandR    string
 	Class    string
@@ -186,10 +213,14 @@ var model = porcupine.Model{
 	Step: func(st, in, out any) (bool, any) {
 		s, i, o := st.(state), in.(opIn), out.(opOut)
 		switch i.Kind {
-		case "snapshot":
+		case "snapshot", "api-get":
 			return o.Snap == s.C && o.VerKey == s.C, s
 		case "routes":
 			return o.Routes == s.R, s
+		case "api-validate":
+			return apiValidateOK(i, o), s
+		case "api-apply":
+			return apiApplyStep(s, i, o, false)
 		}
 		if i.Kind == "applyif" && i.ExpKey != s.C {
 			return o.Code == "precondition_failed" && o.VerKey == s.C, s
@@ -264,52 +295,117 @@ func relate(r *lib.Run, key, version string, wit func() any) {
 }
 
 type scriptOp struct {
-	Kind   string // snapshot routes apply applyif
+	Kind   string // snapshot routes apply applyif api-get api-apply api-validate
 	Class  string // candidate class, or "identical"
 	UID    int
 	Exp    string // last | initial | garbage | empty | older
 	Yields int
+	Form   string `json:",omitempty"` // api-apply / api-validate: yaml json patch patch-noop garbage
+	Bulk   int    `json:",omitempty"` // extra routes in the candidate (API candidates of bulk histories)
+	Spin   int    `json:",omitempty"` // PRNG-chosen amount of busy work before the call (spreads direct applies over the API window)
 }
 
-func genScripts(rng *rand.Rand) [][]scriptOp {
+// History shapes. "mixed": the original generator plus the API operations in the mix.
+// "api-race": client 0 opens with an API apply carrying a fresh if_match while the others open
+// with direct applies (what a file reload does) after a PRNG-chosen amount of busy work, so that
+// their commits spread over the API request's decode/merge/validate phase; then a mixed tail.
+const (
+	shapeMixed   = "mixed"
+	shapeAPIRace = "api-race"
+)
+
+func pickClass(rng *rand.Rand) string {
+	switch k := rng.Intn(20); {
+	case k < 9:
+		return clsRoute
+	case k < 12:
+		return clsInvalid
+	case k < 15:
+		return clsOther
+	case k < 16:
+		return clsBoth
+	case k < 17:
+		return clsNil
+	default:
+		return "identical"
+	}
+}
+
+func pickAPIForm(rng *rand.Rand) string {
+	return []string{"patch", "patch", "patch", "yaml", "yaml", "json", "patch-noop", "garbage"}[rng.Intn(8)]
+}
+
+func genScripts(rng *rand.Rand, shape string, bulk int) [][]scriptOp {
 	g := 2 + rng.Intn(7)
 	budget := 38
+	if shape == shapeAPIRace {
+		g = 2 + rng.Intn(3)
+		budget = 16
+	}
 	scripts := make([][]scriptOp, g)
 	uids := rng.Perm(40)
 	next := 0
+	uid := func() int { u := uids[next%len(uids)]; next++; return u } // unique within the history for applied candidates
 	for i := range scripts {
 		n := 1 + rng.Intn(6)
+		if shape == shapeAPIRace {
+			n = 1 + rng.Intn(3)
+		}
 		for j := 0; j < n && budget > 0; j++ {
 			budget--
 			op := scriptOp{Yields: rng.Intn(4) * rng.Intn(3)}
-			switch k := rng.Intn(20); {
+			if shape == shapeAPIRace && j == 0 {
+				// the opening move
+				if i == 0 {
+					op.Kind, op.Exp, op.Class, op.UID, op.Bulk, op.Yields = "api-apply", "last", clsRoute, uid(), bulk, 0
+					op.Form = []string{"patch", "patch", "yaml", "json", "patch-noop"}[rng.Intn(5)]
+				} else {
+					op.Kind, op.Class, op.UID = "apply", clsRoute, uid()
+					if rng.Intn(4) == 0 {
+						op.Kind, op.Exp = "applyif", "last"
+					}
+					op.Spin = rng.Intn(60) * rng.Intn(60)
+				}
+				scripts[i] = append(scripts[i], op)
+				continue
+			}
+			switch k := rng.Intn(28); {
 			case k < 4:
 				op.Kind = "snapshot"
 			case k < 6:
 				op.Kind = "routes"
 			case k < 12:
 				op.Kind = "apply"
-			default:
+			case k < 20:
 				op.Kind = "applyif"
+			case k < 22:
+				op.Kind = "api-get"
+			case k < 23:
+				op.Kind = "api-validate"
+			default:
+				op.Kind = "api-apply"
+			}
+			if op.Kind == "applyif" || op.Kind == "api-apply" {
 				op.Exp = []string{"last", "last", "last", "last", "initial", "older", "garbage", "empty"}[rng.Intn(8)]
 			}
-			if op.Kind == "apply" || op.Kind == "applyif" {
-				switch k := rng.Intn(20); {
-				case k < 9:
-					op.Class = clsRoute
-				case k < 12:
-					op.Class = clsInvalid
-				case k < 15:
-					op.Class = clsOther
-				case k < 16:
-					op.Class = clsBoth
-				case k < 17:
-					op.Class = clsNil
-				default:
-					op.Class = "identical"
+			switch op.Kind {
+			case "apply", "applyif":
+				op.Class = pickClass(rng)
+				op.UID = uid()
+			case "api-apply", "api-validate":
+				op.Class = pickClass(rng)
+				op.UID = uid()
+				op.Form = pickAPIForm(rng)
+				op.Bulk = bulk
+				if op.Class == clsNil {
+					op.Class, op.Form = clsRoute, "garbage" // there is no nil document; the undecodable payload takes its place
 				}
-				op.UID = uids[next%len(uids)] // unique within the history for applied candidates
-				next++
+				if op.Kind == "api-validate" && op.Form == "patch-noop" {
+					op.Form = "yaml" // ValidateConfig takes documents only
+				}
+				if op.Kind == "api-validate" && op.Form == "patch" {
+					op.Form = "json"
+				}
 			}
 			scripts[i] = append(scripts[i], op)
 		}
@@ -322,11 +418,11 @@ var clock atomic.Int64
 // runHistory runs one history on g. A Gate is reused for a batch of histories (gate.New costs
 // ~90 ms under -race: key generation); the state a history starts from is whatever the previous
 // one left, revealed by the sequential prefix (snapshot + route read).
-func runHistory(r *lib.Run, rng *rand.Rand, hid string, g *gate.Gate) (sig string, nOps int, bad bool) {
-	scripts := genScripts(rng)
+func runHistory(r *lib.Run, rng *rand.Rand, hid string, g *gate.Gate, svc *apiClient, shape string, bulk int) (sig string, nOps int, bad bool) {
+	scripts := genScripts(rng, shape, bulk)
 	seedBase := rng.Int63()
 	init := initialConfig()
-	r.LogCase(map[string]any{"history": hid, "scripts": scripts})
+	r.LogCase(map[string]any{"history": hid, "shape": shape, "bulk": bulk, "scripts": scripts})
 	violationsBefore := r.Violations()
 	defer func() { bad = bad || r.Violations() != violationsBefore }()
 
@@ -388,11 +484,71 @@ func runHistory(r *lib.Run, rng *rand.Rand, hid string, g *gate.Gate) (sig strin
 				for y := 0; y < op.Yields; y++ {
 					runtime.Gosched()
 				}
+				spin(op.Spin)
 				switch op.Kind {
 				case "snapshot":
 					s, v := doSnapshot(ci)
 					lastSnap = s
 					see(v)
+				case "api-get":
+					c0 := clock.Add(1)
+					snap, ver, code := svc.get()
+					c1 := clock.Add(1)
+					out := opOut{Version: ver, Code: code}
+					if snap != nil {
+						out.Snap = keyOf(snap)
+						lastSnap = snap
+					}
+					see(ver)
+					add(rec{client: ci, call: c0, ret: c1, in: opIn{Kind: "api-get"}, out: out}, nil)
+				case "api-apply", "api-validate":
+					var cd cand
+					if op.Class == "identical" {
+						src := lastSnap
+						if src == nil {
+							src = initialConfig()
+						}
+						cd = cand{cfg: src, class: clsRoute, key: keyOf(src), rkey: keyOf(src.Config.Lite.Routes), desc: "identical-to-last-seen"}
+					} else {
+						cd = mkCand(crng, op.Class, op.UID, op.Bulk)
+					}
+					payload, isPatch := apiPayload(crng, cd, op.Form)
+					in := opIn{Kind: op.Kind, Form: op.Form, Cand: cd.key, CandR: cd.rkey, Class: cd.class, Desc: cd.desc}
+					switch op.Form {
+					case "patch-noop":
+						in.Noop, in.Class, in.Cand, in.CandR, in.Desc = true, clsRoute, "", "", "empty-merge-patch"
+					case "garbage":
+						in.Class, in.Cand, in.CandR, in.Desc = clsUndecodable, "", "", "undecodable-payload"
+					}
+					if op.Kind == "api-validate" {
+						c0 := clock.Add(1)
+						code := svc.validate(payload)
+						c1 := clock.Add(1)
+						add(rec{client: ci, call: c0, ret: c1, in: in, out: opOut{Code: code}}, nil)
+						break
+					}
+					switch op.Exp {
+					case "last":
+						in.ExpRaw = lastVer
+					case "older":
+						in.ExpRaw = olderVer
+					case "initial":
+						in.ExpRaw = initVer
+					case "garbage":
+						in.ExpRaw = "stale"
+					case "empty":
+						in.ExpRaw = ""
+					}
+					in.ExpLabel = op.Exp
+					c0 := clock.Add(1)
+					code, ver := svc.apply(payload, isPatch, in.ExpRaw)
+					c1 := clock.Add(1)
+					see(ver)
+					var cp *cand
+					if !in.Noop && in.Class != clsUndecodable {
+						cp = &cd
+					}
+					add(rec{client: ci, call: c0, ret: c1, in: in, out: opOut{Code: code, Version: ver}}, cp)
 				case "routes":
 					c0 := clock.Add(1)
 					jc := g.Java().Config()
@@ -530,8 +686,15 @@ func runHistory(r *lib.Run, rng *rand.Rand, hid string, g *gate.Gate) (sig strin
 	for _, rc := range recs {
 		var key string
 		switch {
-		case rc.in.Kind == "snapshot":
+		case rc.in.Kind == "snapshot" || rc.in.Kind == "api-get":
 			key = rc.out.Snap
+		case rc.in.Kind == "api-apply":
+			// an accepted API apply reports the version of the configuration it left in place: its
+			// candidate (the empty merge patch has no content of its own)
+			if rc.out.Code != apiOK || rc.in.Noop || rc.in.Cand == "" {
+				continue
+			}
+			key = rc.in.Cand
 		case rc.out.Code == "applied" || rc.out.Code == "unchanged":
 			key = rc.in.Cand
 		default:
@@ -553,10 +716,13 @@ func runHistory(r *lib.Run, rng *rand.Rand, hid string, g *gate.Gate) (sig strin
 
 	// ---- snapshot membership ----------------------------------------------------------------------
 	for _, rc := range recs {
-		if rc.in.Kind != "snapshot" || rc.out.Snap == "" {
+		if (rc.in.Kind != "snapshot" && rc.in.Kind != "api-get") || rc.out.Snap == "" {
 			continue
 		}
 		r.Count("snapshots_observed", 1)
+		if rc.in.Kind == "api-get" {
+			r.Count("api_get_config_documents_decoded", 1)
+		}
 		if rc.out.Snap == initKey {
 			continue
 		}
@@ -572,18 +738,23 @@ func runHistory(r *lib.Run, rng *rand.Rand, hid string, g *gate.Gate) (sig strin
 	// ---- porcupine ------------------------------------------------------------------------------
 	ops := make([]porcupine.Operation, 0, len(recs))
 	codes := map[string]int{}
+	apiCodes := map[string]int{}
 	for _, rc := range recs {
 		in, out := rc.in, rc.out
-		if in.Kind == "applyif" {
+		if in.Kind == "applyif" || in.Kind == "api-apply" {
 			in.ExpKey = resolve(in.ExpRaw)
 		}
 		if out.Version != "" {
 			out.VerKey = resolve(out.Version)
-		} else if out.Code == "applied" || out.Code == "unchanged" || out.Code == "precondition_failed" || in.Kind == "snapshot" {
+		} else if out.Code == "applied" || out.Code == "unchanged" || out.Code == "precondition_failed" || in.Kind == "snapshot" || in.Kind == "api-get" || (in.Kind == "api-apply" && out.Code == apiOK) {
 			out.VerKey = "?missing"
 		}
 		if in.Kind == "apply" || in.Kind == "applyif" {
 			codes[out.Code]++
+		}
+		if strings.HasPrefix(in.Kind, "api-") {
+			apiCodes[in.Kind+":"+in.Form+":"+out.Code]++
+			codes[in.Kind+"="+out.Code]++
 		}
 		ops = append(ops, porcupine.Operation{ClientId: rc.client, Input: in, Call: rc.call, Output: out, Return: rc.ret})
 	}
@@ -594,12 +765,21 @@ func runHistory(r *lib.Run, rng *rand.Rand, hid string, g *gate.Gate) (sig strin
 	switch res {
 	case porcupine.Illegal:
 		r.Count("porcupine_illegal", 1)
-		r.Violation(classifyIllegal(recs, ops), "the recorded history of live-config calls is not linearizable w.r.t. the validated compare-and-swap model", witness())
+		r.Violation(classifyIllegal(recs, ops, state{initKey, initR}), "the recorded history of live-config calls is not linearizable w.r.t. the validated compare-and-swap model", witness())
 	case porcupine.Unknown:
 		r.Inconclusive("porcupine timed out on history " + hid)
 	}
 	for c, n := range codes {
-		r.Count("result_"+c, n)
+		if !strings.HasPrefix(c, "api-") {
+			r.Count("result_"+c, n)
+		}
+	}
+	for c, n := range apiCodes {
+		r.Count("api_result:"+c, n)
+	}
+	r.Count("histories_shape_"+shape, 1)
+	if bulk > 0 {
+		r.Count("histories_with_bulk_route_tables_in_api_candidates", 1)
 	}
 
 	// interleaving signature: order in which applied candidates took effect + overlap degree
@@ -607,19 +787,42 @@ func runHistory(r *lib.Run, rng *rand.Rand, hid string, g *gate.Gate) (sig strin
 	var applied []string
 	overlap := 0
 	for i, rc := range recs {
-		if rc.out.Code == "applied" {
+		if rc.out.Code == "applied" || (rc.in.Kind == "api-apply" && rc.out.Code == apiOK) {
 			applied = append(applied, rc.in.Desc)
 		}
 		for j := i + 1; j < len(recs) && recs[j].call < rc.ret; j++ {
 			overlap++
 		}
+		if rc.in.Kind != "api-apply" {
+			continue
+		}
+		// what the API window saw: direct appliers that committed while this API apply was running
+		r.Count("api_apply_calls", 1)
+		direct := 0
+		for _, o := range recs {
+			if (o.in.Kind == "apply" || o.in.Kind == "applyif") && o.out.Code == "applied" && o.call < rc.ret && o.ret > rc.call {
+				direct++
+			}
+		}
+		if direct > 0 {
+			r.Count("api_apply_calls_overlapped_by_a_direct_apply_that_committed", 1)
+			switch {
+			case rc.out.Code == apiOK:
+				r.Count("api_apply_accepted_with_a_direct_commit_overlapping", 1)
+			case rc.out.Code == apiFailedPrecondition && rc.in.ExpLabel == "last":
+				r.Count("api_apply_rejected_as_stale_with_a_direct_commit_overlapping", 1)
+			}
+		}
 	}
 	r.Count("overlapping_call_pairs", overlap)
-	return fmt.Sprintf("g=%d ops=%d applied=%v codes=%v overlap=%d", len(scripts), len(recs), applied, codes, overlap), len(recs), false
+	return fmt.Sprintf("shape=%s g=%d ops=%d applied=%v codes=%v overlap=%d", shape, len(scripts), len(recs), applied, codes, overlap), len(recs), false
 }
 
 // classifyIllegal looks for the most specific explanation of a non-linearizable history.
-func classifyIllegal(recs []rec, ops []porcupine.Operation) string {
+func classifyIllegal(recs []rec, ops []porcupine.Operation, init state) string {
+	if sig := classifyAPI(ops, init); sig != "" {
+		return sig
+	}
 	// two successful conditional applies of different candidates on the same expected version
 	byExp := map[string]map[string]bool{}
 	for _, o := range ops {
@@ -647,7 +850,7 @@ func classifyIllegal(recs []rec, ops []porcupine.Operation) string {
 	}
 	for _, o := range ops {
 		in, out := o.Input.(opIn), o.Output.(opOut)
-		if in.Kind == "snapshot" && out.Snap != out.VerKey {
+		if (in.Kind == "snapshot" || in.Kind == "api-get") && out.Snap != out.VerKey {
 			return "history-not-linearizable-snapshot-content-and-version-disagree"
 		}
 		if (out.Code == "applied" || out.Code == "unchanged") && out.VerKey != in.Cand {
@@ -665,8 +868,12 @@ func describe(recs []rec) []string {
 		in, o := rc.in, rc.out
 		s := fmt.Sprintf("c%d [%d,%d] %s", rc.client, rc.call, rc.ret, in.Kind)
 		switch in.Kind {
-		case "snapshot":
-			s += fmt.Sprintf(" -> content=%s version=%.12s", o.Snap, o.Version)
+		case "snapshot", "api-get":
+			s += fmt.Sprintf(" -> %s content=%s version=%.12s", o.Code, o.Snap, o.Version)
+		case "api-validate":
+			s += fmt.Sprintf("(%s content=%s as %s) -> %s", in.Desc, in.Cand, in.Form, o.Code)
+		case "api-apply":
+			s += fmt.Sprintf("(%s content=%s as %s, if_match=%s:%.12s) -> %s version=%.12s", in.Desc, in.Cand, in.Form, in.ExpLabel, in.ExpRaw, o.Code, o.Version)
 		case "routes":
 			s += fmt.Sprintf(" -> routes=%s", o.Routes)
 		default:
@@ -700,9 +907,19 @@ func TestC35(t *testing.T) {
 			defer wg.Done()
 			rng := r.Rng(fmt.Sprintf("histories-%d", w))
 			var g *gate.Gate
+			var svc *apiClient
 			onThisGate := 0
 			for h := w; h < n; h += workers {
 				hid := fmt.Sprintf("w%d-h%d", w, h)
+				// deterministic shape walk: every 3rd history is an api-race, every 2nd of those (and
+				// every 6th mixed one) carries bulk route tables in its API candidates
+				shape, bulk := shapeMixed, 0
+				if h%3 == 1 {
+					shape = shapeAPIRace
+				}
+				if (shape == shapeAPIRace && h%2 == 0) || h%30 == 0 {
+					bulk = []int{80, 160, 280}[(h/3)%3]
+				}
 				if g == nil || onThisGate >= 25 {
 					var err error
 					if g, err = gate.New(gate.Options{Config: initialConfig()}); err != nil {
@@ -713,11 +930,19 @@ func TestC35(t *testing.T) {
 					onThisGate = 0
 					r.Count("gate_instances", 1)
 				}
+				if onThisGate == 0 {
+					svc = newAPIClient(g)
+				}
 				onThisGate++
-				sig, nops, bad := runHistory(r, rng, hid, g)
+				sig, nops, bad := runHistory(r, rng, hid, g, svc, shape, bulk)
 				r.Eval(1)
 				if bad {
 					g = nil // never let one defect cascade into the following histories
+				}
+				if bulk > 0 && g != nil {
+					// between histories (not part of any): shrink the route table again, or every
+					// snapshot of the following histories on this Gate would pay for it
+					g.ApplyLiveConfig(mkCand(rng, clsRoute, 700+h%40).cfg)
 				}
 				if sig == "" {
 					continue
